@@ -83,6 +83,8 @@ func runC01(c *Ctx, r *Report) {
 	checkANSIPatternBounded(c, r, "C01/ansi-bounded")
 	r.Rule("C01/ansi-no-shadow", "no alternative of the escape-sequence pattern is tried before another one of which it matches a proper prefix (leftmost-first matching would leave the tail of a complete sequence in the output)", 1)
 	checkANSINoShadow(c, r, "C01/ansi-no-shadow")
+	r.Rule("C01/ansi-specimens", "the escape-sequence pattern matches each specimen control sequence (CSI with and without private prefix, SGR, erase, cursor, keypad, OSC title) as one complete sequence", 1)
+	checkANSISpecimens(c, r, "C01/ansi-specimens")
 	r.Rule("C01/tx-seq", "send-input worker: exactly [write(input), echo read(ctx,input), write return, final prompt read per mode] on every success path; result = processOut(final read, StripPrompt); one SendInput per command", 6)
 	r.Rule("C01/enqueue-once", "read loop: one Enqueue per successful non-empty read, of that read's bytes with CR removed and ANSI stripped; read-until loops append every chunk and return the accumulation", 6)
 	r.Rule("C01/post-process", "processOut: per-line right-trim of spaces, prompt removal exactly when asked, trim of return char and newlines", 3)
